@@ -1369,7 +1369,7 @@ def run(ck):
 
     from spsdk.utils.database import DatabaseManager
     ck.max_fail_per_stream = 40
-    gen_names = ["RegLayouts", "RegDetails", "PfrFuns"]
+    gen_names = ["RegLayouts", "RegDetails", "PfrRules"]
     ck.lean_obligations(generated=gen_names)
     drv = ck.driver()
     ck.assume("YAML parsing (PyYAML safe_load, as SPSDK's load_configuration), YAML emission (ruamel.yaml) and JSON-schema validation "
@@ -1653,6 +1653,12 @@ def _correspondence(ck, drv, cases, recs):
             elif it["op"] == "rule":
                 lines.append(f"compute 0:{it['rule']} 0 {it['v']}")
                 expect.append(str(it["out"]))
+                inputs.append(inp)
+                # the generated bit-expression tree of the source function (ties the generator's translation to the real function)
+                lines.append(f"evalrule {it['rule']} {it['v']}")
+                expect.append(str(it["out"]))
+                inputs.append(inp + ("generated-tree",))
+                continue
             elif it["op"] == "xmcdhdr":
                 lines.append("xmcdhdr " + " ".join(map(str, it["args"])))
                 expect.append(str(it["hdr"]))
